@@ -39,6 +39,7 @@ CHAIN = {"vm1": {"install": None, "customize": "install", "on_customize": "custo
                  "linux_virtuser": "customize"},
          "vm2": {"install": None, "customize": "install", "on_customize": "customize", "windows_virtuser": "customize"},
          "vm3": {"install": None, "customize": "install", "on_customize": "customize", "connect": "customize"}}
+MAIN_RESTRICTIONS = ["all", "nonleaves", "leaves", "normal", "minimal"]      # main_restrictions of the shipped groups-base.cfg
 REMOVE_SETS = [None, "leaves", "minimal", "tutorial_gui", "tutorial_get", "tutorial1", "leaves..tutorial_gui"]
 NETS = ["net1", "net2", "net3", "net4"]
 
@@ -69,6 +70,8 @@ def observe(case, module=None):
             vp[f"to_state_{vm}"] = case["to"][vm]
     if case.get("remove_set"):
         vp["remove_set"] = case["remove_set"]
+    for vm, rs in (case.get("remove_set_vm") or {}).items():
+        vp[f"remove_set_{vm}"] = rs          # object-suffixed form (like from_state_<vm> / to_state_<vm>)
     config = rec.base_config(vm_strs, " ".join(case["nets"]), vms_params=vp)
     kind, val = rec.call_tool("update", config, case.get("tag", "0m0"))
     evs = []
@@ -202,6 +205,17 @@ def judge(ctx, case, obs):
             return
         bad("update-raised", f"update raised {val}: {obs['msg']}")
         return
+    # the remove-set graph of a vm is parsed from THAT vm's remove set: `remove_set_<vm>` if given, else `remove_set`, else
+    # `leaves`, completed by `all..` when it names no main restriction (read off the parser calls, independent of the graphs)
+    for e in obs["events"]:
+        if e["k"] == "pot" and not e.get("shared") and e.get("vm") in sel:
+            rs = (case.get("remove_set_vm") or {}).get(e["vm"]) or case.get("remove_set") or "leaves"
+            if not any(m in rs for m in MAIN_RESTRICTIONS):
+                rs = "all.." + rs
+            ctx.count("oracle.remove-set." + ("per-vm" if (case.get("remove_set_vm") or {}).get(e["vm"]) else "global"))
+            if (e.get("restr") or "").strip() != "only " + rs:
+                bad("remove-set-of-another-scope", f"{e['vm']} on {e['worker']}: the remove-set graph was parsed from "
+                    f"{(e.get('restr') or '').strip()!r}, the vm's remove set is {rs!r}")
     # every selected vm is handled on every selected worker (unless the parser has nothing for that worker)
     empty = {(e["vm"], e["worker"]) for e in obs["events"] if e["k"] == "pot" and e["exc"]}
     have = {(g["vm"], g["worker"]) for g in graphs}
@@ -397,6 +411,11 @@ def gen_cases(rng, thorough):
                                                                            ("customize", "customize")])}, None)
         c["vms"]["vm1"] = ""
         cases.append(c)
+        # a remove set given per vm (object-suffixed) that differs from the global / default one
+        c = mk_case(rng, ["vm1", "vm2"], rng.sample(NETS, rng.choice([1, 2])),
+                    {"vm1": ("install", "customize"), "vm2": ("install", "customize")}, None)
+        c["remove_set_vm"] = {"vm1": "minimal"}
+        cases.append(c)
     else:
         combos = []
         for vm in ("vm1", "vm2", "vm3"):
@@ -418,8 +437,11 @@ def gen_cases(rng, thorough):
         for _ in range(24):
             vms = sorted(rng.sample(["vm1", "vm2", "vm3"], rng.choice([2, 2, 3])))
             ft = {vm: rng.choice(pairs(vm)) for vm in vms}
-            cases.append(mk_case(rng, vms, rng.sample(NETS, rng.choice([1, 1, 2])), ft,
-                                 None if rng.random() < 0.7 else rng.choice(REMOVE_SETS[:4])))
+            c = mk_case(rng, vms, rng.sample(NETS, rng.choice([1, 1, 2])), ft,
+                        None if rng.random() < 0.7 else rng.choice(REMOVE_SETS[:4]))
+            if rng.random() < 0.4:
+                c["remove_set_vm"] = {rng.choice(vms): rng.choice(["minimal", "leaves", "tutorial1"])}
+            cases.append(c)
     # unknown states are rejected
     rej = [(["vm1"], {"vm1": ("install", "nosuchstate")}), (["vm1"], {"vm1": ("nosuchstate", "customize")})]
     if thorough:
